@@ -400,11 +400,38 @@ class EQLTranslator:
                 f"No DAO class found for {self.select_like.selected_variable._type_}"
             )
 
+        self._reject_variables_that_cannot_be_told_apart()
+
         self.sql_query = select(dao_class)
         conditions = self.translate_query(self.root_condition)
 
         if conditions is not None:
             self.sql_query = self.sql_query.where(conditions)
+
+    def _reject_variables_that_cannot_be_told_apart(self) -> None:
+        """
+        Attribute chains are resolved through the class of their variable and every DAO class appears once in the
+        FROM clause. Two different variables of the same class (or of classes that inherit from each other) would
+        therefore be translated to the same columns and the statement would answer another question.
+        """
+        variables: List[Variable] = []
+        for selected_or_variable in self.select_like._all_variable_instances_:
+            for variable in selected_or_variable._all_variable_instances_:
+                if isinstance(variable, Literal) or not isinstance(
+                    variable._type_, type
+                ):
+                    continue
+                if not any(variable is known for known in variables):
+                    variables.append(variable)
+        for index, first in enumerate(variables):
+            for second in variables[index + 1 :]:
+                if issubclass(first._type_, second._type_) or issubclass(
+                    second._type_, first._type_
+                ):
+                    raise UnsupportedQueryTypeError(
+                        f"The variables {first._name_} and {second._name_} range over the same class, "
+                        f"they cannot be told apart in the translated statement."
+                    )
 
     def evaluate(self) -> List[Any]:
         """
@@ -604,11 +631,13 @@ class EQLTranslator:
 
         if isinstance(operand, Literal):
             extractor = DomainValueExtractor(self.session)
-            return extractor.extract_from_literal(operand)
+            return self._reject_entity_values(extractor.extract_from_literal(operand))
 
         if isinstance(operand, Variable):
             extractor = DomainValueExtractor(self.session)
-            return extractor.extract_from_variable(operand)
+            return self._reject_entity_values(
+                extractor.extract_from_variable(operand)
+            )
 
         if isinstance(operand, SymbolicExpression):
             # calls, indexing, flattening, ... cannot be expressed as a column or a bound value
@@ -617,6 +646,24 @@ class EQLTranslator:
             )
 
         return operand
+
+    @staticmethod
+    def _reject_entity_values(value: Any) -> Any:
+        """
+        An operand that could not be resolved to a column or a plain value (an instance of a mapped class, or a
+        collection of such instances) cannot be bound as a parameter of the statement.
+
+        :param value: The value extracted from a literal or a variable.
+        :return: The value if it can be bound.
+        """
+        values = value if isinstance(value, (list, tuple, set)) else [value]
+        for single_value in values:
+            if get_dao_class(type(single_value)) is not None:
+                raise UnsupportedQueryTypeError(
+                    f"An instance of {type(single_value).__name__} cannot be used as a value in the translated "
+                    f"statement."
+                )
+        return value
 
     def _handle_contains_operator(
         self, query: Comparator, left: Any, right: Any, operator_name: str
